@@ -23,7 +23,8 @@
     channel operations, [select] and [sync.WaitGroup] behave as the LTS' labels say is assumed, not
     proved; the correspondence check replays observed histories of the real code through the LTS. *)
 From Coq Require Import List ZArith Arith.
-From ApiFu Require Import Idle.IdleModel Idle.IdleSpec Idle.IdleProofs Idle.IdleLive Idle.IdleHist Idle.IdleFair Idle.IdleSub Idle.IdleJoint Idle.IdleJointRun.
+From ApiFu Require Import Idle.IdleModel Idle.IdleSpec Idle.IdleProofs Idle.IdleLive Idle.IdleHist Idle.IdleFair Idle.IdleSub Idle.IdleJoint Idle.IdleJointRun Idle.IdleJointTotal.
+From ApiFu Require Fut.NoPrefill Fut.Denote.
 From ApiFu Require Fut.Plan Fut.ExecAsync Fut.ExecSync Fut.AsyncRun Fut.FutSpec Fut.FutProofs.
 Import ListNotations.
 
@@ -321,6 +322,36 @@ Theorem C15_response_eq_sync : forall p fx root jfuel cs resp,
   FutSpec.conforms root (ExecAsync.r_data resp) (ExecAsync.r_errors resp).
 Proof. exact response_eq_sync. Qed.
 
+(** ... and the joint system does run to completion, every one of its steps being forced: for every
+    plan without prefilled promises ([NoPrefill.nopre root]: true of every Go/Batch request, api-fu
+    never sends before it has returned the promise) and every flat Go/Batch program with an item
+    for each promise of the plan, a joint run exists — constructed by following C02's own
+    [wait_loop_spec] with the oracle replaced by the LTS: a pending future enables [LIdleEnter]; the
+    handler can complete the round; whatever round it is, it fulfils exactly its deliveries in C02's
+    table (never C02's Stuck); C02's poll is mirrored by creates / consumes / abandons; until the
+    future is ready.  Together with [C15_response_eq_sync]: "response == response of the same query
+    with all resolvers synchronous" for Go/Batch requests without chaining. *)
+Theorem C15_joint_run_exists : forall p, wf_items p = true -> bfun_ok p -> no_chaining p -> flat_async p ->
+  forall fx root jfuel,
+  NoPrefill.nopre root = true -> Plan.count_async root <= length (p_items p) ->
+  FutProofs.resp_depth root < jfuel ->
+  exists cs resp, JRun p fx root jfuel cs resp.
+Proof. exact joint_run_exists. Qed.
+
+Theorem C15_response_eq_sync_go_batch : forall p, wf_items p = true -> bfun_ok p -> no_chaining p -> flat_async p ->
+  forall fx root jfuel,
+  NoPrefill.nopre root = true -> Plan.count_async root <= length (p_items p) ->
+  FutProofs.resp_depth root < jfuel ->
+  (exists cs resp, JRun p fx root jfuel cs resp) /\
+  forall cs resp, JRun p fx root jfuel cs resp ->
+    ExecAsync.r_data resp = ExecSync.sr_data (ExecSync.run_sync root) /\
+    FutSpec.conforms root (ExecAsync.r_data resp) (ExecAsync.r_errors resp).
+Proof.
+  exact (fun p WF BF NC FL fx root jfuel NP BIG HJ =>
+           conj (joint_run_exists p WF BF NC FL fx root jfuel NP BIG HJ)
+                (fun cs resp => response_eq_sync p fx root jfuel cs resp HJ)).
+Qed.
+
 (** That the joint system's steps are the ones the two components can and must take (coupling
     [KG st ids s]: [K] plus "the promises C02's future still awaits = the LTS' live items"), for a flat
     Go/Batch program:
@@ -331,12 +362,9 @@ Proof. exact response_eq_sync. Qed.
       promises no longer awaited (a), and the states stay coupled with the new awaited set;
     - (b) a pending future ([Blocked]: an awaited promise without a result) enables [LIdleEnter]; a
       ready one (nothing awaited) enables [LEnd].
-    THE ONE MISSING LEMMA: [poll_preserves_KG] assumes of the poll that the promises it appends are
-    not done and that it adds no channel entry.  C02's [Acct] does not say so (it admits prefilled
-    promises); for plans none of whose tags is prefilled — api-fu's Go and Batch never send before
-    they return — it holds by reading ExecAsync.exec_field ([new_promise] vs [new_promise_pre]), but
-    proving it needs an induction over C02's executor closures (its [StepSpec] proofs) that was not
-    done.  [acct_provides] (IdleJoint.v) derives all the other hypotheses from [Acct]. *)
+    [poll_preserves_KG] assumes of the poll that the promises it appends are not done and that it
+    adds no channel entry: that is C02's [NoPrefill.NP] (C02_no_prefill_poll), used in
+    [joint_loop_exists]; [acct_provides] (IdleJoint.v) derives the other hypotheses from [Acct]. *)
 Theorem C15_joint_round_forced : forall p, wf_items p = true -> bfun_ok p -> no_chaining p ->
   forall fx, flat_async p -> forall st ids s m mid s',
   KG p st ids s -> Inv p s -> Sim p s m -> st_phase s = PPoll ->
@@ -395,6 +423,8 @@ Print Assumptions C15_no_leak.
 Print Assumptions C15_drains.
 Print Assumptions C15_no_leak_refuted_before_fix.
 Print Assumptions C15_response_eq_sync.
+Print Assumptions C15_joint_run_exists.
+Print Assumptions C15_response_eq_sync_go_batch.
 Print Assumptions C15_joint_round_forced.
 Print Assumptions C15_joint_poll_mirrored.
 Print Assumptions C15_joint_guards.
